@@ -26,6 +26,7 @@ def run(chk):
     )
     chk.not_decided = "what happens to in-flight requests in time; exactly-once under repeated cleanup() calls; entry points outside web.py (gunicorn worker, test utilities)."
     chk.explanation += " Also decided: a failing on_shutdown hook skips neither the connection drain nor the application cleanup; after a failed startup the started contexts of sub-applications are exited too; a failing cleanup receiver does not keep other applications' contexts from exiting and no context can be exited twice; a closing connection still feeds the request being handled. After the defect hunt: close() closes an idle connection at once; a handler whose client disconnected keeps its task for shutdown; the transport of a cancelled handler is aborted; the gunicorn worker cleans up after a failed startup."
+    chk.explanation += " Second hunt: Application.cleanup() is decided on its paths (contexts exited on every path, sub-applications first, before the cleanup signal, also when the signal raises); a connection registered after pre_shutdown() is closed at once; every runner.setup() call site of the package undoes a half-completed startup; an idle connection still flushing is aborted when the shutdown timeout expires."
     cc = repo.cls(APP, "CleanupContext")
     st = cc.methods["_on_startup"]
     cu = cc.methods["_on_cleanup"]
